@@ -143,6 +143,11 @@ fn run_group(sim: &mut Sim, kinds: Vec<Kind>, name: &'static str) -> Outcome {
     let skip_num = sim.choose("knob_skip_tick_pct", 0, 60);
     let mut probes: Vec<Probe> = kinds.iter().map(|k| Probe::new(*k)).collect();
     let mut arr = Arrivals { next_id: 1, nkeys, per_step_max, budget: vec![budget_each; probes.len()] };
+    // a fold's output singleton always starts with its initial value
+    for p in probes.iter_mut().filter(|p| p.kind == Kind::Passthrough) {
+        p.arrive(0, arr.next_id, 0);
+        arr.next_id += 1;
+    }
     sim.event(fnv_str(&format!("{kinds:?}")), || format!("{name}: hooks {kinds:?} nkeys={nkeys} items/hook={budget_each}"));
     let mut log = String::new();
     let mut ticks = 0u64;
@@ -223,6 +228,13 @@ pub fn run_tick(sim: &mut Sim) -> Outcome {
         kinds.push(*sim.pick("knob_kind", &Kind::TICK[..6]));
     }
     run_group(sim, kinds, "tick")
+}
+
+/// A tick with a batch hook and a `PassthroughSingletonHook` (snapshot of a top-level fold over an
+/// unordered stream). Not part of the regular mix: on the current tree it reproduces FINDINGS.md #1
+/// (`release_decision` panics when the fold produced no new version since the last tick).
+pub fn run_passthrough_tick(sim: &mut Sim) -> Outcome {
+    run_group(sim, vec![Kind::Passthrough, Kind::StreamTotal], "passthrough_tick")
 }
 
 /// An observation: one top-level hook, always forced when picked.
